@@ -29,7 +29,7 @@ GARBAGE_DECL = ['(x)', '[a]', '{a:b}', 'x(y)', 'x(y:1)', '$', '1px', '"s"', '#f0
                 'color #fff: blue', 'top 1: 2', 'color: red: blue', 'color red', 'top:: 1px', ':top: 1px', 'a b: c']
 GARBAGE_STMT = ['x(y){d:e}', '(y){d:e}', '[y]{d:e}', '$ {a:b}', 'a,,b{c:d}', 'a{{}}', '@unknown x;', '@unknown { a { b } }', '@import "late.css";',
                 '@charset "x";', '@namespace "late";', '1px{a:b}', '"s"{a:b}', '#{a:b}', '.{a:b}',
-                'a b c;', '@x (a;b) [c;d];', '@import "x" print { x { y: 1 } }', '@import { "x" }', '@charset { a }', '@namespace p { "u" }', 'f(;){a:b}', '@page x x x { }', '@media {a{b:c}}', '@font-face;', 'a! {b:c}']
+                'a b c;', '@x (a;b) [c;d];', '@foo url() bar;', '@foo url( ) { a url() }', '@foo url("") bar;', '@import "x" print { x { y: 1 } }', '@import { "x" }', '@charset { a }', '@namespace p { "u" }', 'f(;){a:b}', '@page x x x { }', '@media {a{b:c}}', '@font-face;', 'a! {b:c}']
 
 
 def parse(text):
@@ -144,6 +144,7 @@ def run(ctx):
         if i == 2:
             ctx.sample(case)
     header_injection(ctx, rng)
+    header_truncation(ctx)
     agree = slicing.correspondence(ctx, texts[:200 if quick else 4000])
     ctx.extra['correspondence'] = {'slicing_checks_agree_total': agree}
 
@@ -186,6 +187,31 @@ def header_injection(ctx, rng):
             if not sem_ok or got[1:] != base[1:]:
                 ctx.violation('statement-containment', case, 'undamaged: variables %r namespaces %r rule types %r\ndamaged:   variables %r namespaces %r rule types %r' % (
                     base[1], base[2], base[3], got[1], got[2], got[3]), KNOWN_PRED)
+
+
+def header_truncation(ctx):
+    """every prefix of a sheet whose header rules use url(): parsing never raises and every statement complete before
+    the cut is present with its type"""
+    stmts = ['@charset "utf-8";', '@import url(i.css) print;', '@import url( "j.css" );', '@namespace hp url(http://h);', '@foo url(x) bar;',
+             '@variables { hv: 1px }', 'hp|a { background: url(a.png) }', '@media tv { b { c: url(d) } }', 'z { top: 0 }']
+    text = ' '.join(stmts)
+    ends, pos = [], 0
+    for st in stmts:
+        pos += len(st)
+        ends.append(pos)
+        pos += 1
+    full = [r.type for r in parse(text).cssRules]
+    for cut in range(len(text) + 1):
+        case = {'text': text[:cut], 'level': 'header-truncation'}
+        ctx.case(('htrunc', cut))
+        try:
+            got = [r.type for r in parse(text[:cut]).cssRules]
+        except Exception as e:
+            ctx.violation('raises', case, '%s: %s' % (type(e).__name__, e), KNOWN_PRED)
+            continue
+        ncomplete = sum(1 for e in ends if e <= cut)
+        if got[:ncomplete] != full[:ncomplete]:
+            ctx.violation('truncation', case, '%d statements are complete before the cut: rule types %r, got %r' % (ncomplete, full[:ncomplete], got), KNOWN_PRED)
 
 
 def nested_truncation(ctx, rng, sp):
